@@ -116,7 +116,7 @@ NOT_YET = "not yet built in this round (specification and binding under construc
 
 
 SUITE = {"C01": "parts", "C03": "values", "C04": "lines", "C05": "join", "C06": "fold", "C07": "text", "C08": "join", "C17": "cdict"}
-FRESH = {"C01", "C03", "C04", "C05", "C07", "C08", "C09", "C10", "C13", "C14", "C15", "C17", "C18", "C19", "C20"}
+FRESH = {"C01", "C03", "C04", "C05", "C06", "C07", "C08", "C09", "C10", "C13", "C14", "C15", "C17", "C18", "C19", "C20"}
 
 
 def suffix(pid):
